@@ -1205,6 +1205,8 @@ class AddItems(Opcode):
                 f"{pyset!r} was expected to be a set-like object with an `add` function"
             )
         pyset.elts.extend(reversed(to_add))
+        # ADDITEMS leaves the (updated) set on the stack, like the pickle VM does
+        interpreter.stack.append(pyset)
 
 
 class Reduce(Opcode):
